@@ -745,6 +745,112 @@ def _check_copy(R, h, hp, expr, line, tparams):
           "per_tensor.copy_(per_axis) or axis0.copy_(axis_last): accepted, the destination then declares an axis its scale does not broadcast along")
 
 
+def schema_writeback(repo: Repo, name: str):
+    """A second shape of write-back fallback, `name(op, *args, **kwargs)` driven by the schema of the overload: the operation is applied to dequantized
+    stand-ins, every quantized argument the schema marks as written is then re-quantized from its stand-in and copied into, and the written tensors
+    are handed back in place of their stand-ins.  Returns None when `name` is not such a function, else a dict of structural facts:
+      schema   - the written arguments come from `<op>._schema` (`alias_info` / `is_write`)
+      reissue  - (line, forwards_args, forwards_kwargs, dequantizes) of the call `op(*X, **Y)`
+      pairs    - name of the list that records (destination, stand-in) pairs (filled under an isinstance(..., <quantized class>) test), or None
+      copies   - [(line, guards)] of `<d>.copy_(...)` calls inside a loop over that list; guards = conditions on the way that are not size / numel tests
+      quant    - the AST of the scale argument of the `...Quantizer.apply(...)` call that builds what is copied (through one helper), and the name of the destination there
+      returns  - "mapped" (the stand-ins are replaced by their destinations: a closure returning the destination under `value is stand-in`), "raw" (the value of the re-issued op itself), or "other"
+    """
+    if not name.isidentifier():
+        return None
+    try:
+        mi, fn = repo.func(name)
+    except AnalysisError:
+        return None
+    params = positional_params(fn)
+    if not params or fn.args.vararg is None or fn.args.kwarg is None:
+        return None
+    opn, argsn, kwn = params[0], fn.args.vararg.arg, fn.args.kwarg.arg
+    nodes = list(ast.walk(fn))
+    if not any(isinstance(x, ast.Attribute) and x.attr == "_schema" and U(x.value) == opn for x in nodes):
+        return None
+    facts = {"mi": mi, "fn": fn, "schema": any(isinstance(x, ast.Attribute) and x.attr == "is_write" for x in nodes) and any(isinstance(x, ast.Attribute) and x.attr == "alias_info" for x in nodes)}
+    # the re-issued operation
+    facts["reissue"] = None
+    out_name = None
+    for st in nodes:
+        c = st.value if isinstance(st, (ast.Assign, ast.Return, ast.Expr)) and isinstance(getattr(st, "value", None), ast.Call) else None
+        if c is not None and isinstance(c.func, ast.Name) and c.func.id == opn:
+            star = any(isinstance(a, ast.Starred) for a in c.args)
+            dstar = any(k.arg is None for k in c.keywords)
+            deq = any(isinstance(x, ast.Call) and isinstance(x.func, ast.Attribute) and x.func.attr == "dequantize" for x in nodes)
+            facts["reissue"] = (c.lineno, star, dstar, deq)
+            if isinstance(st, ast.Assign) and isinstance(st.targets[0], ast.Name):
+                out_name = st.targets[0].id
+    # the list of (destination, stand-in) pairs
+    pairs = None
+    for x in nodes:
+        if isinstance(x, ast.Call) and isinstance(x.func, ast.Attribute) and x.func.attr == "append" and isinstance(x.func.value, ast.Name) and x.args and isinstance(x.args[0], ast.Tuple) and len(x.args[0].elts) == 2:
+            pairs = x.func.value.id
+    facts["pairs"] = pairs
+    # the copies
+    copies = []
+    quant = None
+
+    def walk_loop(body, dname, guards):
+        nonlocal quant
+        for st in body:
+            if isinstance(st, ast.If):
+                t = U(st.test)
+                size_test = ".numel()" in t or ".size()" in t or ".shape" in t or ".nelement()" in t
+                walk_loop(st.body, dname, guards + ([] if size_test else [t]))
+                walk_loop(st.orelse, dname, guards + ([] if size_test else ["not " + t]))
+            elif isinstance(st, (ast.With, ast.Try)):
+                walk_loop(st.body, dname, guards)
+            else:
+                for c in ast.walk(st):
+                    if isinstance(c, ast.Call) and isinstance(c.func, ast.Attribute) and c.func.attr == "copy_" and U(c.func.value) == dname:
+                        copies.append((c.lineno, list(guards)))
+                        if c.args:
+                            quant = (c.args[0], dname)
+
+    for lp in nodes:
+        if isinstance(lp, ast.For) and pairs is not None and U(lp.iter) == pairs and isinstance(lp.target, ast.Tuple) and len(lp.target.elts) == 2 and isinstance(lp.target.elts[0], ast.Name):
+            walk_loop(lp.body, lp.target.elts[0].id, [])
+    facts["copies"] = copies
+    # the scale of what is copied
+    facts["quant"] = None
+    if quant is not None:
+        src, dname = quant
+        cand = None
+        for c in ast.walk(src):
+            if isinstance(c, ast.Call) and U(c.func).endswith("Quantizer.apply") and len(c.args) >= 4:
+                cand = (c.args[3], dname, fn)
+        if cand is None and isinstance(src, ast.Call) and isinstance(src.func, ast.Name):
+            r = repo.resolve(mi, src.func.id)
+            if r is not None and isinstance(r[1], ast.FunctionDef):
+                hp = positional_params(r[1])
+                # the destination is the helper's parameter that receives `dname`
+                dpar = next((hp[i] for i, a in enumerate(src.args) if U(a) == dname and i < len(hp)), None)
+                for p in paths_of(r[1]):
+                    if p.end[0] == "return" and p.end[1] is not None:
+                        for c in ast.walk(p.end[1]):
+                            if isinstance(c, ast.Call) and U(c.func).endswith("Quantizer.apply") and len(c.args) >= 4:
+                                cand = (c.args[3], dpar, r[1])
+        facts["quant"] = cand
+    # what is returned
+    kinds = set()
+    for st in nodes:
+        if isinstance(st, ast.Return) and st.value is not None and any(st in ast.walk(b) for b in fn.body if not isinstance(b, (ast.FunctionDef,))):
+            v = st.value
+            if isinstance(v, ast.Name) and v.id == out_name:
+                kinds.add("raw")
+            elif isinstance(v, ast.Call) and isinstance(v.func, ast.Name) and any(isinstance(d, ast.FunctionDef) and d.name == v.func.id for d in fn.body):
+                d = next(d for d in fn.body if isinstance(d, ast.FunctionDef) and d.name == v.func.id)
+                hands_back = any(isinstance(x, ast.Compare) and len(x.ops) == 1 and isinstance(x.ops[0], ast.Is) for x in ast.walk(d)) and any(isinstance(x, ast.For) and U(x.iter) == pairs for x in ast.walk(d))
+                kinds.add("mapped" if hands_back else "other")
+            else:
+                kinds.add("other")
+    facts["returns"] = "mapped" if kinds == {"mapped"} else ("raw" if "raw" in kinds else "other")
+    facts["names"] = (opn, argsn, kwn)
+    return facts
+
+
 def writeback_fallback(repo: Repo, name: str):
     """Classify the paths of a dispatch-level helper `name(op, *args, **kwargs)`: a list of (kind, path) with kind "fallback" (returns
     qfallback(op, *args, ...)), "writeback" (returns the destination - the first argument or the `out` keyword - or the result of a write into it)
@@ -773,7 +879,26 @@ def writeback_fallback(repo: Repo, name: str):
             continue
         if isinstance(expr, ast.Call) and U(expr.func) == "qfallback":
             a = [U(x) for x in expr.args]
-            out.append(("fallback" if a[:1] == [opn] and f"*{argsn}" in a else f"line {line}: qfallback without the forwarded arguments", p))
+            fwd_ok = a[:1] == [opn] and f"*{argsn}" in a and (kwn is None or any(k.arg is None and U(k.value) == kwn for k in expr.keywords))
+            # the keywords handed on are the ones received: nothing was taken out of them on the way (`dest = kwargs.pop("out", None)` before the
+            # plain route leaves torch.add(q, 1, out=plain) without its destination)
+            removed = []
+            if kwn is not None:
+                seen_exprs = [v for v in p.env.values() if isinstance(v, ast.AST)] + [ef[1] for ef in p.effects if len(ef) > 1 and isinstance(ef[1], ast.AST)]
+                for v in seen_exprs:
+                    for c in ast.walk(v):
+                        if isinstance(c, ast.Call) and isinstance(c.func, ast.Attribute) and c.func.attr in ("pop", "popitem", "clear") and U(c.func.value) == kwn:
+                            removed.append(U(c))
+                removed += [f"del {U(ef[1])}" for ef in p.effects if ef[0] == "del" and isinstance(ef[1], ast.AST) and U(ef[1]).startswith(kwn + "[")]
+            restored = any(ef[0] == "substore" and U(ef[1]) == kwn for ef in p.effects)
+            if not fwd_ok:
+                out.append((f"line {line}: qfallback without the forwarded arguments", p))
+            elif removed and not restored:
+                out.append((f"dropped:{removed[0]}", p))
+            elif removed:
+                out.append((f"line {line}: keywords removed and written again before qfallback", p))
+            else:
+                out.append(("fallback", p))
             continue
         e = expr
         # dest.copy_(...) / dest
@@ -829,6 +954,24 @@ def _dispatch_rules(repo: Repo, hs) -> List[Rec]:
                 n_ok += ok
             else:
                 # a write-back fallback: a repo function that either defers to qfallback with the forwarded arguments or returns the written destination
+                sw = schema_writeback(repo, f)
+                if sw is not None:
+                    fwd = args in ([f"{opn}", f"*{argsn}"], [f"{opn}.overloadpacket", f"*{argsn}"]) and kws in kw_forms and args[0] == opn
+                    ri = sw["reissue"]
+                    if not fwd:
+                        R("C05.R8", "bad", ci.mod, expr, qn, "write-back fallback call", f"schema-driven write-back fallback called as `{U(expr)[:80]}`: the overload (its schema is read) and *args/**kwargs are not forwarded", "any mutating op without a handler")
+                    elif ri is None or not sw["schema"]:
+                        R("C05.R8", "unknown", ci.mod, expr, qn, "write-back fallback call", f"`{f}` reads the schema of the op but the re-issued call / the written-argument test were not recognised")
+                    elif not (ri[1] and ri[2]):
+                        R("C05.R8", "bad", ci.mod, expr, qn, "write-back fallback re-issues the op without its arguments", f"`{f}` re-issues the op at line {ri[0]} without {'*args' if not ri[1] else '**kwargs'}", "q.clamp_(min=0.): the keyword is lost")
+                    elif sw["returns"] == "raw":
+                        R("C05.R8", "bad", ci.mod, expr, qn, "write-back fallback returns a fresh tensor", f"`{f}` returns the value of the re-issued operation (a dequantized stand-in), not the destination", "q.relu_() returns a plain tensor: `q = q.relu_()` / `x += 1` rebind the name to it")
+                    elif sw["returns"] != "mapped":
+                        R("C05.R8", "unknown", ci.mod, expr, qn, "write-back fallback call", f"`{f}`: what it returns is outside the vocabulary of the rule (the destinations in place of their stand-ins)")
+                    else:
+                        R("C05.R8", "ok", ci.mod, expr, qn, "write-back fallback call", f"schema-driven write-back fallback `{f}` called with the overload and *args/**kwargs; it re-issues the op on dequantized stand-ins (line {ri[0]}) and hands the written tensors back", "any mutating op without a handler")
+                        n_ok += 1
+                    continue
                 wb = writeback_fallback(repo, f)
                 if wb is None:
                     R("C05.R8", "bad", ci.mod, expr, qn, "dispatch target", f"dispatch returns `{U(expr)[:80]}`: neither the registered handler nor qfallback", "any op")
@@ -836,7 +979,10 @@ def _dispatch_rules(repo: Repo, hs) -> List[Rec]:
                     fwd = args == [f"{opn}.overloadpacket", f"*{argsn}"] and kws in kw_forms
                     conforms = all(k in ("fallback", "writeback") for k, _ in wb)
                     fresh = [hp_ for k, hp_ in wb if k == "fresh"]
-                    if fresh:
+                    dropped = [(k, hp_) for k, hp_ in wb if k.startswith("dropped:")]
+                    if dropped:
+                        R("C05.R8", "bad", ci.mod, expr, qn, "write-back fallback drops a keyword before the plain route", f"`{f}` evaluates `{dropped[0][0][8:]}` on the path that ends in qfallback(..., **{kwn}) at line {dropped[0][1].end[2]}: the op is re-issued without that keyword", "torch.add(q, 1, out=plain_tensor): the destination is never written")
+                    elif fresh:
                         R("C05.R8", "bad", ci.mod, expr, qn, "write-back fallback returns a fresh tensor", f"`{f}` returns the value of the re-issued operation at line {fresh[0].end[2]} without writing it into the destination", "q.relu_() / q.zero_(): the operand comes back unchanged")
                     elif not fwd:
                         R("C05.R8", "bad", ci.mod, expr, qn, "write-back fallback call", f"write-back fallback called as `{U(expr)[:80]}`: the op packet and *args/**kwargs are not forwarded", "any mutating op without a handler")
